@@ -1218,12 +1218,16 @@ class Translator:
         return E(f"(← Py.sortedByKeyM (fun {mangle(v)} => do pure {key.code}) {rev.code} {inner.code})", inner.ty)
 
     def _comprehension(self, n):
-        """`[f(x) for x in xs]` / `(f(x) for x in xs)` consumed once, in order → `xs.map fun x => f x`; `f(x)` must not raise"""
+        """`[f(x) for x in xs]` / `(f(x) for x in xs)` consumed once, in order → `xs.map fun x => f x`; `f(x)` must not raise.
+        `[x for x in xs if c(x)]` (the element is the loop variable itself, one condition) → `xs.filter fun x => c x`, or, when the
+        condition can raise, `(← Py.filterM (fun x => do pure (c x)) xs)`: conditions in list order, the first exception propagates"""
         if len(n.generators) != 1:
             raise Unsupported(n, "nested comprehension")
         g = n.generators[0]
-        if g.ifs or g.is_async or not isinstance(g.target, ast.Name):
-            raise Unsupported(n, "comprehension with a condition / a non-name target")
+        if g.is_async or not isinstance(g.target, ast.Name):
+            raise Unsupported(n, "comprehension with a non-name target")
+        if g.ifs and not (len(g.ifs) == 1 and isinstance(n.elt, ast.Name) and n.elt.id == g.target.id):
+            raise Unsupported(n, "comprehension with a condition whose element is not the loop variable itself / several conditions")
         v = g.target.id
         src = self._iterable(g.iter)
         el = src.ty[1] if src.ty else None
@@ -1233,15 +1237,27 @@ class Translator:
         self.vt[v] = el
         self.scopes.append({v})
         saved, self.raising = self.raising, False
+        cond_raises = False
         try:
-            body = self.ex(n.elt)
-            if self.raising:
-                raise Unsupported(n.elt, "element expression of a comprehension can raise")
+            if g.ifs:
+                body = self.ex(g.ifs[0])
+                cond_raises = self.raising
+                if body.ty not in (BOOL, None):
+                    raise Unsupported(g.ifs[0], "condition of a comprehension is not a boolean (truthiness is outside the subset)")
+            else:
+                body = self.ex(n.elt)
+                if self.raising:
+                    raise Unsupported(n.elt, "element expression of a comprehension can raise")
         finally:
             self.scopes.pop()
             self.raising = saved
         if body.ty is None or el is None:
             return E("_", None)
+        if g.ifs:
+            if cond_raises:
+                self.raising = True
+                return E(f"(← Py.filterM (fun {mangle(v)} => do pure {body.code}) {src.code})", src.ty)
+            return E(f"({src.code}.filter fun {mangle(v)} => {body.code})", src.ty)
         return E(f"({src.code}.map fun {mangle(v)} => {body.code})", ("List", body.ty))
 
     def _for_targets(self, st):
@@ -1735,6 +1751,51 @@ def regenerate_limit(repo, verif):
     return _write(Path(verif) / "lean" / "OdxVerif" / "Gen" / "CompuLimit.lean", render_limit(Path(repo)))
 
 
+# ---- `Parameter.is_required` of the parameter classes the codec model knows + `composite_codec_get_required_parameters`
+# (python file, class, constructor pattern of the model's `PKind`, binders, attrs): the dispatch `p.is_required` on the run-time class
+# of `p` is the hand-written table `isRequiredE` below (class ↔ constructor of `PKind`, the same reading as the model's encoder)
+_REQ_CLASSES = [
+    ("codedconstparameter", "CodedConstParameter", ".codedConst _ _", "", "", {}),
+    ("physicalconstantparameter", "PhysicalConstantParameter", ".physConst _ _", "", "", {}),
+    ("valueparameter", "ValueParameter", ".value _ dflt", "(dflt : Option PVal)", " dflt",
+     {("ValueParameter", "_physical_default_value"): ("dflt", opt(("Rec", "PVal")))}),
+    ("reservedparameter", "ReservedParameter", ".reserved _", "", "", {}),
+    ("matchingrequestparameter", "MatchingRequestParameter", ".matchingReq _ _", "", "", {}),
+    ("nrcconstparameter", "NrcConstParameter", ".nrcConst _ _", "", "", {}),
+    ("lengthkeyparameter", "LengthKeyParameter", ".lengthKey _", "", "", {}),
+]
+
+
+def render_required(repo: Path) -> str:
+    parts, table = [], []
+    for k, (mod, cls, pat, binders, args, attrs) in enumerate(_REQ_CLASSES):
+        rel = f"odxtools/parameters/{mod}.py"
+        name = cls[0].lower() + cls[1:] + "IsRequired"
+        spec = PureSpec(params={"self": (("Rec", cls), None)}, binders=binders, attrs=attrs)
+        parts.append(translate_pure_function((Path(repo) / rel).read_text(), "is_required", spec, "OdxVerif.Codec.Gen",
+                                             ["OdxVerif.Model.Codec", "OdxVerif.Model.PyRt"] if k == 0 else [], rel, cls_name=cls,
+                                             lean_name=name))
+        table.append(f"  | {pat} => {name}E{args}")
+    spec = PureSpec(
+        params={"codec": (("Rec", "CompositeCodec"), None)},
+        binders="(other : Py.M Bool) (parameters : List Param)",
+        attrs={("CompositeCodec", "parameters"): ("parameters", ("List", ("Rec", "Param"))),
+               ("Param", "is_required"): ("(← isRequiredE other {})", BOOL)},
+        prelude=["/-- `p.is_required`: Python dispatches on the class of `p`; the classes the model knows are the constructors of `PKind`.",
+                 "    `PKind.unsupported` stands for every other parameter class (SYSTEM, TABLE-KEY, TABLE-STRUCT, TABLE-ENTRY, DYNAMIC): what",
+                 "    their `is_required` does is the parameter `other` of the rendering. -/",
+                 "def isRequiredE (other : Py.M Bool) (p : Param) : Py.M Bool :=",
+                 "  match p.kind with"] + table + ["  | .unsupported => other"])
+    rel = "odxtools/codec.py"
+    parts.append(translate_pure_function((Path(repo) / rel).read_text(), "composite_codec_get_required_parameters", spec,
+                                         "OdxVerif.Codec.Gen", [], rel, lean_name="requiredParameters"))
+    return "\n".join(parts)
+
+
+def regenerate_required(repo, verif):
+    return _write(Path(verif) / "lean" / "OdxVerif" / "Gen" / "CodecRequired.lean", render_required(Path(repo)))
+
+
 _FRAG, _OBJ, _S, _DB, _FRAGDB = ("Rec", "Frag"), ("Rec", "Obj"), ("Rec", "String"), ("Rec", "Db"), ("Rec", "FragDb")
 
 # `OdxLinkDatabase.resolve` / `resolve_lenient`: `self._db` is the model's `Db` (an insertion-ordered association list for the dict of
@@ -1788,8 +1849,8 @@ if __name__ == "__main__":
     repo = Path(sys.argv[1]) if len(sys.argv) > 1 else Path("/repo")
     if len(sys.argv) > 2:
         for regen in (regenerate_isotp, regenerate_staticlen, regenerate_muxkey, regenerate_limit, regenerate_inherit_prio,
-                      regenerate_itemkey, regenerate_odxlink_resolve):
+                      regenerate_itemkey, regenerate_odxlink_resolve, regenerate_required):
             print(regen(repo, Path(sys.argv[2])))
     else:
-        for render in (render_isotp, render_staticlen, render_muxkey, render_limit, render_inherit_prio, render_itemkey, render_odxlink_resolve):
+        for render in (render_isotp, render_staticlen, render_muxkey, render_limit, render_inherit_prio, render_itemkey, render_odxlink_resolve, render_required):
             sys.stdout.write(render(repo))
